@@ -259,7 +259,7 @@ Proof.
     { apply (collect_spec _ _ _ _ Hcol). destruct sh.
       - left. by apply (Hcl eq_refl D l).
       - right. split; [done|]. exists D, l. split_and!; auto.
-        unfold load_from. rewrite decide_True; [done|]. destruct (Hdel2 D HD) as (_ & Hu & _).
+        unfold ld, load_from. rewrite decide_True; [done|]. destruct (Hdel2 D HD) as (_ & Hu & _).
         by apply up_ok_src in Hu. }
     destruct (decide (o ∈ dex)) as [Hod|Hod]; [apply elem_of_union_l; auto|].
     apply elem_of_union_r.
@@ -316,3 +316,135 @@ Lemma index_sound E remote ops :
   wf_env E → closed_in E remote → Forall (closed_op E) ops →
   Inv E (run E (init_state remote) ops).
 Proof. intros Hw Hc Hops. apply Inv_run; [done|done|]. by apply Inv_init. Qed.
+
+(* ------------------------------------------------------------------------------------ *)
+(* Corollaries in the shape of the property *)
+
+(* the statement of DESIGN section 6 (for closed histories the first disjunct always holds) *)
+Lemma index_sound_listed E remote ops :
+  wf_env E → closed_in E remote → Forall (closed_op E) ops →
+  ∀ o, o ∈ dom (s_idx (run E (init_state remote) ops)) →
+    o ∈ s_ever (run E (init_state remote) ops) ∨
+    ∃ D l, D ∈ s_remote (run E (init_state remote) ops) ∧ e_trees E !! D = Some l ∧ o ∈ l.
+Proof. intros Hw Hc Hops o Ho. left. by apply (inv_index _ _ (index_sound E remote ops Hw Hc Hops)). Qed.
+
+(* what [s_ever] means: exactly the union of the contents the remote had along the history *)
+Lemma step_ever E s o :
+  s_remote s ⊆ s_ever s → s_ever (step E s o).1 = s_ever s ∪ s_remote (step E s o).1.
+Proof.
+  intros Hr. destruct o as [req sh fails|loc req sh fails|os|q sh]; cbn [step].
+  - destruct (compare_status _ _ _ _ _ _ _ _ _) as [[[c six'] dix']|]; [|cbn; set_solver].
+    destruct (transfer_tail _ _ _ _) as [x|]; cbn; set_solver.
+  - destruct (compare_status _ _ _ _ _ _ _ _ _) as [[[c six'] dix']|]; [|cbn; set_solver].
+    destruct (transfer_tail _ _ _ _) as [x|]; cbn; set_solver.
+  - cbn. set_solver.
+  - destruct (status_ix _ _ _ _ _) as [[[e m] ix']|]; cbn; set_solver.
+Qed.
+
+(* nothing is invented: what the remote ever held was there initially or came from the source *)
+Lemma step_ever_src E s o x : x ∈ s_ever (step E s o).1 → x ∈ s_ever s ∨ x ∈ e_src E.
+Proof.
+  destruct o as [req sh fails|loc req sh fails|os|q sh]; cbn [step].
+  - destruct (compare_status _ _ _ _ _ _ _ _ _) as [[[c six'] dix']|]; [|cbn; auto].
+    destruct (transfer_tail _ _ _ _) as [x0|] eqn:Et; cbn [fst s_ever]; [|auto].
+    rewrite elem_of_union. intros [?|Hx]; [auto|]. right.
+    unfold transfer_tail in Et. destruct (decide (c_new c = ∅)).
+    + inversion Et; subst x0. cbn in Hx. set_solver.
+    + apply do_transfer_ok in Et as (_ & H2 & _). destruct (H2 x Hx) as (_ & Hu & _).
+      by apply up_ok_src in Hu.
+  - destruct (compare_status _ _ _ _ _ _ _ _ _) as [[[c six'] dix']|]; [|cbn; auto].
+    destruct (transfer_tail _ _ _ _) as [x0|]; cbn; auto.
+  - cbn. auto.
+  - destruct (status_ix _ _ _ _ _) as [[[e m] ix']|]; cbn; auto.
+Qed.
+
+Lemma run_ever_src E ops : ∀ s x, x ∈ s_ever (run E s ops) → x ∈ s_ever s ∨ x ∈ e_src E.
+Proof.
+  unfold run. induction ops as [|o ops IH]; intros s x; cbn [foldl]; [auto|].
+  intros H. apply IH in H as [H|?]; [|auto]. by apply step_ever_src in H.
+Qed.
+
+(* C12_dir_fresh along a history: the shared index is always well flagged, so a status query
+   through it never reports a directory object that is not in the remote at query time *)
+Lemma history_dir_fresh E remote ops q sh s' ex mi :
+  wf_env E → closed_in E remote → Forall (closed_op E) ops →
+  step E (run E (init_state remote) ops) (Query q sh) = (s', OStatus ex mi) →
+  ∀ D, D ∈ ex → is_dir_oid D = true → D ∈ s_remote (run E (init_state remote) ops).
+Proof.
+  intros Hw Hc Hops. pose proof (index_sound E remote ops Hw Hc Hops) as HI.
+  cbn [step]. destruct (status_ix _ _ _ _ _) as [[[e m] ix']|] eqn:Es; [|discriminate].
+  intros H; inversion H; subst; clear H.
+  by destruct (status_dir_fresh _ _ _ _ _ _ _ _ Es (wf_loader_from E _ Hw) (inv_flags _ _ HI)) as (? & _).
+Qed.
+
+(* ------------------------------------------------------------------------------------ *)
+(* Non-vacuity: a concrete environment and history satisfying every hypothesis above, in
+   which a shared file fails to upload (both directories withheld), the retry succeeds and
+   indexes, an external deletion makes the index stale, and a status query clears it. *)
+Module Ex.
+  Definition F1 : oid := [1].
+  Definition F2 : oid := [2].
+  Definition F3 : oid := [3].
+  Definition D1 : oid := [7] ++ dot_dir.
+  Definition D2 : oid := [8] ++ dot_dir.
+  Definition E : env :=
+    {| e_src := {[F1; F2; F3; D1; D2]};
+       e_trees := list_to_map [(D1, [F1; F2]); (D2, [F2; F3])] |}.
+  Definition ops : list op :=
+    [ Push [D1; F1; F2; D2; F3] true [F2];      (* F2 fails: D1 and D2 withheld *)
+      Query [D1; F1] true;
+      Push [D1; D2] false [];                   (* expanded retry: everything arrives, indexed *)
+      ExtDelete [D1; F1];                       (* behind the index's back *)
+      Fetch [F3] [F1; D1] true [];              (* index.intersection still claims F1, D1 *)
+      Query [D1; D2; F1] true ].                (* stale index cleared, D2 re-indexed *)
+
+  Lemma wf : wf_env E.
+  Proof.
+    intros D l H. apply elem_of_list_to_map_2 in H.
+    repeat (apply elem_of_cons in H as [H|H]; [inversion H; subst; clear H|]); [| |inversion H].
+    - split; [reflexivity|]. intros o Ho.
+      repeat (apply elem_of_cons in Ho as [->|Ho]; [reflexivity|]). inversion Ho.
+    - split; [reflexivity|]. intros o Ho.
+      repeat (apply elem_of_cons in Ho as [->|Ho]; [reflexivity|]). inversion Ho.
+  Qed.
+
+  Lemma closed_init : closed_in E ∅.
+  Proof. intros D l H. set_solver. Qed.
+
+  Lemma closed_ops : Forall (closed_op E) ops.
+  Proof.
+    unfold ops. repeat (apply Forall_cons; split); [..|apply Forall_nil]; cbn [closed_op]; try done.
+    intros _ D l HD H. apply elem_of_list_to_map_2 in H.
+    repeat (apply elem_of_cons in H as [H|H]; [inversion H; subst; clear H|]); [| |inversion H];
+      intros o Ho; repeat (apply elem_of_cons in Ho as [->|Ho]; [set_solver|]); inversion Ho.
+  Qed.
+
+  Definition trace_summary : list (bool * bool * bool) :=
+    map (λ p, (same_set (dom (s_idx p.2)) [], same_set (s_remote p.2) [F1; F3],
+               match p.1 with OTransfer _ _ f => negb (same_set f []) | _ => false end))
+        (trace E (init_state ∅) ops).
+
+  (* after op 0: F1, F3 delivered, failures reported, index empty; after op 2 index = all five
+     ids; after op 5: index = {D2, F2, F3} and the remote = {F2, F3, D2} *)
+  Example trace_ok :
+    let tr := trace E (init_state ∅) ops in
+    match tr with
+    | [(OTransfer _ t0 f0, s0); (OStatus e1 m1, s1); (OTransfer _ t2 f2, s2); (ONone, s3);
+       (OTransfer c4 _ _, s4); (OStatus e5 m5, s5)] =>
+        same_set t0 [F1; F3] && same_set f0 [F2; D1; D2] && same_set (s_remote s0) [F1; F3]
+        && same_set (dom (s_idx s0)) []
+        && same_set e1 [F1] && same_set m1 [D1]
+        && same_set t2 [D1; D2; F2] && same_set f2 []
+        && same_set (dom (s_idx s2)) [D1; D2; F1; F2; F3] && same_set (ix_dirs (s_idx s2)) [D1; D2]
+        && same_set (s_remote s3) [F2; F3; D2]
+        && same_set (c_new c4) [F1; D1]          (* the stale index lies to a files-only... *)
+        && same_set e5 [D2] && same_set m5 [D1; F1]
+        && same_set (dom (s_idx s5)) [D2; F2; F3]
+        && same_set (s_ever s5) [F1; F2; F3; D1; D2] = true
+    | _ => False
+    end.
+  Proof. vm_compute. reflexivity. Qed.
+
+  Example inv_final : Inv E (run E (init_state ∅) ops).
+  Proof. apply index_sound; [apply wf|apply closed_init|apply closed_ops]. Qed.
+End Ex.
